@@ -325,7 +325,16 @@ func evalC08(c *engine.Case) engine.Verdict {
 		for _, ev := range o.Events {
 			if ev.Err != nil && ev.Func != engine.TargetID {
 				convFailed = true
+				// the original function, called with these arguments, would
+				// return exactly this error (C04); so must the redefined one
+				if o.Err != ev.Err {
+					v.Failf("converter f%d failed with %v inside the redefined function, which returned %v", ev.Func, ev.Err, o.Err)
+				}
+				break
 			}
+		}
+		if v.Fail != "" {
+			break
 		}
 		if convFailed {
 			continue
